@@ -132,9 +132,12 @@ class Sum(Factory, Container):
             if not isinstance(q, numbers.Real):
                 raise TypeError(f"function return value ({q}) must be boolean or number")
 
+            # do the arithmetic first: a value that only looks like a number (numpy.timedelta64) fails here
+            total = self.sum + q * weight
+
             # no possibility of exception from here on out (for rollback)
             self.entries += weight
-            self.sum += q * weight
+            self.sum = total
 
     def _numpy(self, data, weights, shape):
         q = self.quantity(data)
